@@ -18,6 +18,7 @@ import (
 // ---------------------------------------------------------------- client
 
 type Client struct {
+	OnWrite   func(data []byte)
 	mu        sync.Mutex
 	connected bool
 	FailWrite bool
@@ -66,6 +67,9 @@ func (c *Client) SetRequestedSubProtocol(subProto string)         {}
 func (c *Client) SetBasicAuth(username string, password string)   {}
 func (c *Client) SetHeaderValue(key string, value string)         {}
 func (c *Client) Write(data []byte) error {
+	if c.OnWrite != nil {
+		c.OnWrite(data)
+	}
 	c.mu.Lock()
 	defer c.mu.Unlock()
 	c.Written = append(c.Written, append([]byte(nil), data...))
@@ -141,6 +145,7 @@ type Frame struct {
 }
 
 type Server struct {
+	OnWrite   func(to string, data []byte)
 	mu        sync.Mutex
 	conns     map[string]*Channel
 	FailWrite map[string]bool
@@ -206,6 +211,9 @@ func (s *Server) GetChannel(id string) (ws.Channel, bool) {
 	return c, true
 }
 func (s *Server) Write(id string, data []byte) error {
+	if s.OnWrite != nil {
+		s.OnWrite(id, data)
+	}
 	s.mu.Lock()
 	defer s.mu.Unlock()
 	s.Written = append(s.Written, Frame{id, append([]byte(nil), data...)})
